@@ -122,10 +122,12 @@ func (s *TableAggregator) OrderedRows(sorter sorting.NameValueSorter) []*TableRo
 
 func (s *TableAggregator) ComputeMinMax() (min, max int64) {
 	min, max = math.MaxInt64, math.MinInt64
+	hasCells := false
 
 	for _, r := range s.rows {
 		for colKey := range s.cols {
 			val := r.cols[colKey]
+			hasCells = true
 			if val < min {
 				min = val
 			}
@@ -135,11 +137,8 @@ func (s *TableAggregator) ComputeMinMax() (min, max int64) {
 		}
 	}
 
-	if min == math.MaxInt64 {
-		min = 0
-	}
-	if max == math.MinInt64 {
-		max = 0
+	if !hasCells {
+		min, max = 0, 0
 	}
 	return
 }
